@@ -37,11 +37,59 @@ def expectedYieldPoints : List (String × String) :=
   [("LoadOrNew", "yield:1"), ("LoadOrNew", "yield:2"), ("LoadOrStore", "yield:3"), ("LoadOrStore", "yield:7"),
    ("Delete", "yield:8"), ("Delete", "yield:4")]
 
-/-- **regenerated tie.** usagepool.go has exactly the assumed yield points, and no method re-acquires a lock
-    after a release without a yield point in between -/
+/-- methods of UsagePool that contain any lock operation or yield point (a helper without any — such as a
+    lookup-and-increment helper called under the caller's lock — is not a region of its own) -/
+def syncMethods : List String := (Gen.usagePoolSync.filter (fun m => !m.2.isEmpty)).map (·.1)
+
+def expectedMethods : List String := ["LoadOrNew", "LoadOrStore", "Range", "Delete", "References"]
+
+/-- **regenerated tie.** usagepool.go has exactly the assumed yield points (as a set of (method, point) pairs;
+    the order of the methods in the file does not matter), no method re-acquires a lock after a release
+    without a yield point in between, and the methods that lock or yield at all are the five modelled ones -/
 theorem yield_points_match_source :
-    (Gen.usagePoolSync.flatMap yieldPointsOf) = expectedYieldPoints ∧
+    (expectedYieldPoints.all (Gen.usagePoolSync.flatMap yieldPointsOf).contains = true ∧
+      (Gen.usagePoolSync.flatMap yieldPointsOf).length = expectedYieldPoints.length) ∧
     Gen.usagePoolPaths.all (fun m => m.2.all fun path => reacquireCovered path false) = true ∧
-    Gen.usagePoolSync.map (·.1) = ["LoadOrNew", "LoadOrStore", "Range", "Delete", "References"] := by decide
+    (expectedMethods.all syncMethods.contains = true ∧ syncMethods.length = expectedMethods.length) := by decide
+
+/-! ### which region each yield point delimits (what `Model.lean` assumes of them) -/
+
+/-- the event that must follow a yield point directly on every path (`none`: the yield point is the last
+    event of its path — point 7 is followed by the recursive call that starts LoadOrStore over) -/
+def yieldDelimits : List (String × Option String) :=
+  [("yield:1", some "RLock:upv"),   -- LoadOrNew, loaded: region `lnRead` starts here
+   ("yield:2", some "Lock:up"),     -- LoadOrNew, constructor failed: region `lnFailDel`
+   ("yield:3", some "RLock:upv"),   -- LoadOrStore, loaded: region `lsRead`
+   ("yield:4", some "RLock:upv"),   -- Delete, removed at 0: region `del2`
+   ("yield:7", none),               -- LoadOrStore starts over: next region is `lsLookup` again
+   ("yield:8", some "Lock:up")]     -- Delete entry: region `del1`
+
+def followsOk : List String → Bool
+  | [] => true
+  | e :: es =>
+    (match yieldDelimits.find? (fun d => d.1 == e) with
+     | some (_, want) => es.head? == want
+     | none => !isYield e) && followsOk es
+
+/-- `Range` / `References` are ONE region each: the pool read lock is taken first, released only by the
+    deferred call, and nothing inside can wait (entry locks only by `TryRLock`, never `RLock`/`Lock`) -/
+def underPoolReadLock (path : List String) : Bool :=
+  path.take 2 == ["RLock:up", "defer:RUnlock:up"] &&
+  (path.drop 2).all fun e => e == "TryRLock:upv" || e == "RUnlock:upv"
+
+def pathsOf (m : String) : List (List String) :=
+  (Gen.usagePoolPaths.filter (fun x => x.1 == m)).flatMap (·.2)
+
+/-- **regenerated tie, model side.** On every control-flow path of usagepool.go each yield point is directly
+    followed by the acquisition that starts the model region it stands for (so a yield moved behind its lock,
+    or in front of another statement that takes a lock, breaks this), every `verifYield` is one of the known
+    points, and `Range` / `References` hold the pool read lock from their first to their last statement
+    without ever waiting for an entry — they are the single regions `Label.range` / `Label.refs` (the
+    References and Range repairs cannot be undone without breaking this). -/
+theorem yield_points_delimit_model_regions :
+    Gen.usagePoolPaths.all (fun m => m.2.all followsOk) = true ∧
+    (pathsOf "Range").all underPoolReadLock = true ∧ (pathsOf "Range").isEmpty = false ∧
+    (pathsOf "References").all (fun p => p == ["RLock:up", "defer:RUnlock:up"]) = true ∧
+    (pathsOf "References").isEmpty = false := by decide
 
 end CaddyModel.C04
